@@ -236,6 +236,8 @@ def rule_c(ctx):
         if pp and pp[-1] != "*" and pp[-1][0] == "f" and pp[-1][2] == "idx":
             incs.append(s)
     ctx.ob("one-increment-site", len(incs) == 1, "idx is advanced at exactly one site", incs)
+    esc = K.field_escapes(ctx.prog, "util::seq_futures::SeqFuture", "idx")
+    ctx.ob("idx-not-borrowed-mutably", not esc, "no &mut / raw pointer to SeqFuture::idx is taken (the increment is its only writer)", esc or incs)
     ow = K.whole_value_overwrites(ctx.prog, {"util::seq_futures::SeqFuture"})
     ctx.ob("seq-never-replaced-in-place", not ow, "no statement overwrites a live SeqFuture as a whole (that would rewind idx / drop queued futures)", ow or incs)
     for s in incs:
